@@ -39,6 +39,7 @@ type vrResult struct {
 	Restarts int      `json:"restarts"`
 	Snaps    int      `json:"snaps"`
 	SnapErrs int      `json:"snap_errs"`
+	Migrated int      `json:"migrated"` // restarts of a JSON node with -pre1.0_protobuf (stores converted)
 }
 
 type vrNode struct {
@@ -274,13 +275,21 @@ func vrScenario(k int, seed int64, base string) (res vrResult) {
 			check("snapshot")
 		default:
 			n.stop()
+			what := "restart"
+			if !n.proto && rng.Intn(3) == 0 {
+				// the encoding migration of the node: raft's own entries (configuration,
+				// no-ops), its stable store and the JSON snapshots are in the raftdir
+				n.proto = true
+				res.Migrated++
+				what = "restart-as-protobuf"
+			}
 			if err := n.start(false); err != nil {
-				res.OK, res.Err = false, "restart: "+err.Error()
+				res.OK, res.Err = false, what+": "+err.Error()
 				return
 			}
 			res.Restarts++
-			res.Steps = append(res.Steps, "restart")
-			check("restart")
+			res.Steps = append(res.Steps, what)
+			check(what)
 		}
 	}
 	if res.OK {
@@ -290,13 +299,19 @@ func vrScenario(k int, seed int64, base string) (res vrResult) {
 			res.Snaps++
 		}
 		n.stop()
+		what := "restart"
+		if !n.proto {
+			n.proto = true
+			res.Migrated++
+			what = "restart-as-protobuf"
+		}
 		if err := n.start(false); err != nil {
-			res.OK, res.Err = false, "final restart: "+err.Error()
+			res.OK, res.Err = false, "final "+what+": "+err.Error()
 			return
 		}
 		res.Restarts++
-		res.Steps = append(res.Steps, "snapshot", "restart")
-		check("final-restart")
+		res.Steps = append(res.Steps, "snapshot", what)
+		check("final-" + what)
 	}
 	return res
 }
